@@ -52,6 +52,9 @@ type mutator struct {
 	objs  []objSpan
 	edits []string
 	other func() []byte // another seed, for splicing
+
+	deferred    []uint64 // seeds of cross-reference row edits, applied behind the repair
+	forceRepair bool     // an edit moved objects on purpose: the offsets are recomputed
 }
 
 func kw(t syntax.Token, s string) bool { return t.Kind == syntax.TokKeyword && string(t.Bytes) == s }
@@ -207,7 +210,26 @@ func (m *mutator) valueEnd(i int) int {
 	return i + 1
 }
 
+// dctChain returns /Filter [/DCTDecode /X]: the JPEG decoder is then not the
+// top of the chain and has to be released by the layers above it.
+func (m *mutator) dctChain() (string, string) {
+	upper := []string{"ASCIIHexDecode", "LZWDecode", "ASCII85Decode", "RunLengthDecode", "FlateDecode", "CCITTFaxDecode", "DCTDecode"}
+	u := upper[m.pick("upper", len(upper))]
+	return "[/DCTDecode /" + u + "]", "filter:dct-chain:" + u
+}
+
 func (m *mutator) hostileValue(key string, tok int) (string, string) {
+	if key == "Filter" {
+		// half of the edits of a JPEG stream's /Filter append a second filter
+		for j := tok + 1; j < len(m.toks) && j <= tok+2; j++ {
+			if m.toks[j].Kind == syntax.TokName && (string(m.toks[j].Bytes) == "DCTDecode" || string(m.toks[j].Bytes) == "DCT") {
+				if m.pick("dctchain", 2) == 0 {
+					return m.dctChain()
+				}
+				break
+			}
+		}
+	}
 	switch m.pick("valkind", 8) {
 	case 0, 1:
 		v := hostileInts[m.pick("int", len(hostileInts))]
@@ -227,6 +249,9 @@ func (m *mutator) hostileValue(key string, tok int) (string, string) {
 	// per-key specials
 	switch key {
 	case "Filter":
+		if m.pick("dctchain2", 10) == 0 {
+			return m.dctChain()
+		}
 		k := []int{1, 2, 8, 9, 40}[m.pick("nfilters", 5)]
 		var fs []string
 		for i := 0; i < k; i++ {
@@ -268,7 +293,7 @@ func (m *mutator) edit() bool {
 	if len(ts) == 0 {
 		return false
 	}
-	kind := []int{0, 0, 0, 1, 1, 1, 2, 2, 2, 2, 2, 2, 3, 4, 5, 6, 7, 8, 8, 9, 9}[m.pick("edit", 21)]
+	kind := []int{0, 0, 0, 1, 1, 1, 2, 2, 2, 2, 2, 2, 3, 4, 5, 6, 7, 8, 8, 9, 9, 10, 10, 11}[m.pick("edit", 24)]
 	switch kind {
 	case 0: // integer operand -> hostile constant
 		var idx []int
@@ -411,6 +436,20 @@ func (m *mutator) edit() bool {
 			}
 		}
 		m.edits = append(m.edits, "byteflips")
+	case 10: // rows of the cross-reference stream: applied last, behind the repair (which would rewrite them)
+		x, ok := findLastXRefStream(m.data, ts, locate(ts))
+		if !ok || x == nil {
+			return false
+		}
+		m.deferred = append(m.deferred, m.rnd.Uint64())
+	case 11: // index table of an object stream
+		out, label := tamperObjStmIndex(m.data, m.rnd)
+		if out == nil {
+			return false
+		}
+		m.data = out
+		m.edits = append(m.edits, label)
+		m.forceRepair = true
 	case 9: // one of the fourteen keys inserted into a dictionary (it overrides an existing entry)
 		key := tamperKeys[m.pick("inskey", 14)]
 		fileLevel := map[string]bool{"Prev": true, "Size": true, "W": true, "Index": true, "Encrypt": true}
@@ -494,8 +533,11 @@ func mutate(t *rapid.T, data []byte, other func() []byte) (out []byte, edits []s
 		}
 	}
 	out = m.data
-	if rapid.Bool().Draw(t, "repair") {
+	if rapid.Bool().Draw(t, "repair") || m.forceRepair {
 		kind := rapid.IntRange(0, 3).Draw(t, "repairkind")
+		if m.forceRepair && kind != 0 {
+			kind = 1 // object streams live in files with a cross-reference stream
+		}
 		var fixed []byte
 		func() {
 			defer func() {
@@ -526,6 +568,12 @@ func mutate(t *rapid.T, data []byte, other func() []byte) (out []byte, edits []s
 			out = fixed
 		} else {
 			repair = ""
+		}
+	}
+	for _, seed := range m.deferred {
+		if fixed, label := tamperXRefRows(out, vt.NewRand(seed)); fixed != nil {
+			out = fixed
+			m.edits = append(m.edits, label)
 		}
 	}
 	return out, m.edits, repair
